@@ -641,6 +641,21 @@ func runMalformed(kind string) int {
 		tp.Close()
 		time.Sleep(500 * time.Millisecond)
 		return 0
+	case "connects-faster-than-handled":
+		// inbound connects (nobody accepts them: each is refused with a disconnect exchange) arrive faster than the port gets
+		// done with them, because the TNC takes 150 ms to confirm a disconnect
+		sim.mu.Lock()
+		sim.ReplyDelay = map[string]time.Duration{"d": 150 * time.Millisecond}
+		sim.mu.Unlock()
+		stop := time.Now().Add(700 * time.Millisecond)
+		for i := 0; time.Now().Before(stop); i++ {
+			sim.Send(Frame{Kind: 'C', From: fmt.Sprintf("LA%dXYZ", i%10), To: "LA1AAA", Data: []byte("*** CONNECTED To Station LA1AAA\r\x00")}.Encode())
+			time.Sleep(2 * time.Millisecond)
+		}
+		time.Sleep(400 * time.Millisecond)
+		tp.Close()
+		time.Sleep(300 * time.Millisecond)
+		return 0
 	case "bad-replies":
 		// wrong data lengths in the replies the library parses
 		sim.Send(Frame{Kind: 'Y', From: "LA1AAA", To: "LA2BBB", Data: []byte{1}}.Encode())
@@ -795,10 +810,9 @@ func Main(args []string) int {
 		}
 		scs = append(scs, s)
 	}
-	malformedKinds := []string{"short-header-close", "datalen-too-big-close", "huge-datalen", "unknown-kinds", "garbage", "bad-replies",
+	malformedKinds := []string{"connects-faster-than-handled", "short-header-close", "datalen-too-big-close", "huge-datalen", "unknown-kinds", "garbage", "bad-replies",
 		"short-reply:g:0", "short-reply:g:3", "short-reply:g:6", "short-reply:X:0", "short-reply:R:0", "short-reply:Y:0", "short-reply:Y:2", "short-reply:C:0",
-		"connect-during-close", "connect-during-close", "connect-during-close", "connect-during-close", "connect-during-close", "connect-during-close",
-		"connect-during-close", "connect-during-close", "connect-during-close", "connect-during-close", "connect-during-close", "connect-during-close"}
+		"connect-during-close", "connect-during-close", "connect-during-close"}
 	parallel := 8
 	if *rerun != "" {
 		// confirmation runs: the given scenarios only, nothing else running beside them
@@ -908,6 +922,46 @@ func Main(args []string) int {
 		}
 		w.Write(map[string]interface{}{"scen": map[string]string{"kind": "malformed", "malform": k}},
 			[]rec.Event{{"op": "Malformed", "case": k, "crashed": exit != 0 && exit != 3, "exit": exit, "hung": hung, "site": site}})
+	}
+	// the deadlock between the demux and the port's inbound handler (fix 4ae63af) needs the handler to be slow while connects
+	// keep arriving: many runs of the case at the same time, more than there are processors
+	if *rerun == "" {
+		batch := 96
+		if *n >= 200 {
+			batch = 720
+		}
+		hangs, crashes := 0, 0
+		var mu sync.Mutex
+		var wg2 sync.WaitGroup
+		sem2 := make(chan struct{}, 48)
+		for i := 0; i < batch; i++ {
+			wg2.Add(1)
+			sem2 <- struct{}{}
+			go func() {
+				defer wg2.Done()
+				defer func() { <-sem2 }()
+				cmd := exec.Command(self, "agwpe", "--child", "connect-during-close")
+				done := make(chan error, 1)
+				go func() { done <- cmd.Run() }()
+				select {
+				case err := <-done:
+					if ee, ok := err.(*exec.ExitError); ok && ee.ExitCode() != 3 {
+						mu.Lock()
+						crashes++
+						mu.Unlock()
+					}
+				case <-time.After(30 * time.Second):
+					cmd.Process.Kill()
+					mu.Lock()
+					hangs++
+					mu.Unlock()
+				}
+			}()
+		}
+		wg2.Wait()
+		w.Write(map[string]interface{}{"scen": map[string]string{"kind": "malformed", "malform": "connect-during-close"}},
+			[]rec.Event{{"op": "Malformed", "case": fmt.Sprintf("connect-during-close (%d runs, 48 at a time)", batch), "crashed": crashes > 0, "exit": crashes, "hung": hangs > 0,
+				"site": fmt.Sprintf("%d hung, %d crashed", hangs, crashes)}})
 	}
 	fmt.Printf("{\"traces\":%d,\"scenarios\":%d}\n", w.Count(), len(scs))
 	_ = io.EOF
